@@ -40,6 +40,7 @@ class Ctx:
         self.t0 = time.time()
         self.violations: t.List[dict] = []
         self.known: t.List[str] = []
+        self.known_detail: t.List[dict] = []
         self.notes: t.List[str] = []
         self.corr: t.Dict[str, dict] = {}
         self.impl_outputs: t.Dict[str, t.Tuple[t.Any, list]] = {}  # unit name -> (unit, [(case, implementation output text)])
@@ -67,6 +68,9 @@ class Ctx:
                 line = f"KNOWN-FINDING: property={self.prop} {kf['text']}"
                 if line not in self.known:
                     self.known.append(line)
+                    # the suppressed failure is part of what this run observed: it goes into the evidence, with its input
+                    self.known_detail.append({"key": key, "kind": kind, "broken": broken, "why": str(detail.get("why"))[:600],
+                                              "input": str(detail.get("input"))[:4000], "listed_as": kf["text"][:300]})
                 return
         self.violations.append({"kind": kind, "broken": broken, "detail": detail, "key": key})
 
@@ -389,6 +393,8 @@ def write_evidence(ctx: Ctx, mod) -> None:
             "samples": theorem_statements(ctx.prop) + ctx.samples[:8],
             "oracle_runs": ctx.oracle_runs,
             "notes": ctx.notes,
+            # failures of the property observed by this run that are listed in known_findings.txt (reported as KNOWN-FINDING lines, exit 0)
+            "known_findings_observed": ctx.known_detail,
             **{k: v for k, v in ctx.extra.items() if k not in ("broken_obligations", "model_build_failed")},
             "broken_obligations": ctx.extra.get("broken_obligations", []),
         },
